@@ -7,6 +7,7 @@ CONSTANTS
 INIT Init
 NEXT Next
 INVARIANT TypeOK
+INVARIANT HintTextCarriesTheHints
 INVARIANT MachineAgreesWithDen
 INVARIANT NeutralIffNoRC
 INVARIANT ValidityIsStructural
